@@ -484,4 +484,43 @@ theorem cloneCell_shape_inline {s0 : Array Cell} {cur cur2 : Store} {ls le index
   all_goals rw [hhdr]
   all_goals simp only [hread, Option.map_some]
 
+theorem shape_cell {cells : Array Cell} {a : Nat} {sh : Shape} (h : shape cells a = some sh) :
+    ∃ c, cells[a]? = some c := by
+  unfold shape at h
+  cases hc : cells[a]? with
+  | none => simp [hc] at h
+  | some c => exact ⟨c, rfl⟩
+
+theorem shape_bound {cells : Array Cell} {a : Nat} {sh : Shape} (h : shape cells a = some sh) : a < cells.size := by
+  obtain ⟨c, hc⟩ := shape_cell h
+  rcases Nat.lt_or_ge a cells.size with h | h
+  · exact h
+  · rw [Array.getElem?_eq_none h] at hc; cases hc
+
+/-- only a `List` cell has a `List` label -/
+theorem label_list {cells : Array Cell} {a n k : Nat} {sh : Shape} (h : shape cells a = some sh)
+    (hl : sh.label = .list n k) : cells[a]? = some (.list n k) := by
+  unfold shape at h
+  cases hc : cells[a]? with
+  | none => simp [hc] at h
+  | some c =>
+    rw [hc] at h
+    cases c <;> simp only [] at h <;> try (simp at h; done)
+    all_goals first
+      | (simp only [Option.some.injEq] at h; subst h; simp only [] at hl; first | (cases hl; done) | (rw [hl]))
+      | (simp only [Option.map_eq_some_iff] at h; obtain ⟨t, _, rfl⟩ := h; simp only [] at hl
+         first | (cases hl; done) | (rw [hl]))
+      | (split at h
+         · simp only [Option.some.injEq] at h; subst h; simp only [] at hl; rw [hl]
+         · simp at h)
+
+theorem AllRel.right_mem {α β} {R : α → β → Prop} : ∀ {l : List α} {l' : List β}, AllRel R l l' →
+    ∀ b ∈ l', ∃ a ∈ l, R a b
+  | _, _, .nil, b, hb => by simp at hb
+  | _, _, .cons hab t, b, hb => by
+    rcases List.mem_cons.mp hb with rfl | hb
+    · exact ⟨_, by simp, hab⟩
+    · obtain ⟨a, ha, hr⟩ := AllRel.right_mem t b hb
+      exact ⟨a, by simp [ha], hr⟩
+
 end Garnish.BasicOpt
